@@ -290,7 +290,13 @@ def _check_matrix(X, G, mats, m, eps=2.2e-16):
     err = float(np.max(np.abs(Bc - B)) / np.max(np.abs(B)))
     if err > 1e-7 * max(1.0, cond * 1e-7):
         return f"compact matrix differs from the dense BFGS recursion by {err:.3e} (cond {cond:.2e}, {len(pairs)} pairs)"
-    if not np.allclose(Bc, Bc.T, rtol=1e-9, atol=1e-9 * np.max(np.abs(Bc))):
+    # symmetry: of the middle matrix the package holds (as the product of its two factors), and of the dense matrix this
+    # oracle forms from it - the latter through a linear solve whose own rounding error grows with cond(M^-1), so its
+    # allowance does too (a fixed 1e-9 raised a false alarm on the badly scaled family: M^-1 exactly symmetric, cond 1e14)
+    if not np.allclose(Minv, Minv.T, rtol=1e-10, atol=1e-12 * np.max(np.abs(Minv))):
+        return "limited-memory middle matrix not symmetric"
+    cM = np.linalg.cond(Minv)
+    if not np.allclose(Bc, Bc.T, rtol=0.0, atol=np.max(np.abs(Bc)) * max(1e-9, 100.0 * 2.2e-16 * cM)):
         return "limited-memory matrix not symmetric"
     ev = np.linalg.eigvalsh(0.5 * (Bc + Bc.T))
     if not (ev[0] > -1e-9 * ev[-1] * max(1.0, cond * 1e-7)):
